@@ -1,14 +1,18 @@
-"""--inspect-mode crashes (SyntaxError from parse_type_comment('*Ts')) on a `*args: *Ts` parameter.
+"""--inspect-mode crashes (SyntaxError from parse_type_comment('*Ts')) on `*args: *Ts` when annotations are strings (from __future__ import annotations).
 
 Exit status 1 = defect present, 0 = absent, 2 = inconclusive (preconditions of the input failed).
-Mechanism keys: stubgen-crash:inspect:SyntaxError@fastparse.py:ast3_parse"""
+Mechanism keys:
+  stubgen-crash:inspect:SyntaxError@fastparse.py:ast3_parse
+"""
 import os
 import sys
 
 sys.path.insert(0, os.path.dirname(os.path.abspath(__file__)))
 from _c19repro import run
 
-FILES = '''def tup[*Ts](*args: *Ts) -> tuple[*Ts]:
+FILES = '''from __future__ import annotations
+
+def tup[*Ts](*args: *Ts) -> tuple[*Ts]:
     return args
 '''
 EXPECT = ['stubgen-crash:inspect:SyntaxError@fastparse.py:ast3_parse']
